@@ -185,6 +185,36 @@ func c09Run(c *fw.Ctx, b fw.Batch) {
 				c09Judge(c, "enum", y, uint32(len(y)-1), false)
 			}
 		})
+	case "affix":
+		// every byte value and several multi-byte white-space look-alikes before /
+		// after / inside-the-gaps of valid documents
+		docs := []string{`[]`, `{}`, `[1,2]`, `{"a":1}`, `{"a":[true,null]}`, `[ 1 , "x" ]`, `{"type":"Feature"}`}
+		var affixes [][]byte
+		for v := 0; v < 256; v++ {
+			affixes = append(affixes, []byte{byte(v)})
+		}
+		for _, s := range []string{"\u0085", "\u00a0", "\u2028", "\u2029", "\u3000", "\ufeff", "\u200b", "\x0c\x0c", "\x0b ", " \x00", "\r\n\x0c", "//c", "/**/", "#c"} {
+			affixes = append(affixes, []byte(s))
+		}
+		for _, d := range docs {
+			for _, a := range affixes {
+				for pos := 0; pos <= 2; pos++ {
+					var x []byte
+					switch pos {
+					case 0:
+						x = append(append([]byte{}, a...), d...)
+					case 1:
+						x = append(append([]byte{}, d...), a...)
+					default:
+						x = append(append(append([]byte{}, d[:1]...), a...), d[1:]...)
+					}
+					for _, l := range []uint32{0, 3072, uint32(len(x)), uint32(len(x) + 1)} {
+						c09Judge(c, "affix", x, l, false)
+					}
+				}
+				c.Distinct(fmt.Sprintf("affix|%s|%x", d, a))
+			}
+		}
 	case "deep":
 		// malformed input behind (and around) the recursion cap: more than 4096
 		// nested openers followed by garbage must not get the benefit of the doubt
@@ -256,7 +286,7 @@ func init() {
 	fw.Register(&fw.Prop{
 		ID:    "C09",
 		Level: "exploration",
-		Rule: "bounded-exhaustive: ALL sequences of 1..N tokens over the 16-token alphabet [ ] { } , : \" \"a\" 1 space newline a \\ - tru null (N = 6 quick, 7 thorough), each detected whole (limit 0, and len+1) and truncated (limit = len, and len-1), through Detect and through the JSON signature check directly; plus mutated valid documents (delete/insert/swap/replace a structural byte, drop a closer, duplicate a comma, cut + garbage) for longer inputs, plus garbage behind 100-9000 nested openers (around and beyond the recursion cap of 4096). " +
+		Rule: "bounded-exhaustive: ALL sequences of 1..N tokens over the 16-token alphabet [ ] { } , : \" \"a\" 1 space newline a \\ - tru null (N = 6 quick, 7 thorough), each detected whole (limit 0, and len+1) and truncated (limit = len, and len-1), through Detect and through the JSON signature check directly; plus mutated valid documents (delete/insert/swap/replace a structural byte, drop a closer, duplicate a comma, cut + garbage) for longer inputs, plus every byte value and Unicode white-space look-alikes (U+0085, U+00A0, U+2028, U+3000, form feed, comments) before / after / inside valid documents, plus garbage behind 100-9000 nested openers (around and beyond the recursion cap of 4096). " +
 			"non-trivial = the reference recogniser says the parser has something to reject in that mode (whole: not Complete; truncated: Fail); enumerated strings are distinct by construction (counted once per string and mode), mutants are counted by content hash.",
 		Assumptions: []string{
 			"the relaxed language is the one written in oracle/refjson.go from the property statement: RFC 8259 structure, numbers = runs over [-+.0-9eE] with a digit, any byte but '\"' inside strings with the standard escapes, one trailing comma before a closer",
@@ -278,6 +308,7 @@ func init() {
 			}
 			bs = append(bs, batches("mutate", 8, nm, 1800)...)
 			bs = append(bs, batches("deep", 1, 0, 1800)...)
+			bs = append(bs, batches("affix", 1, 0, 1800)...)
 			// longest batches first
 			for i, j := 0, len(bs)-1; i < j; i, j = i+1, j-1 {
 				bs[i], bs[j] = bs[j], bs[i]
